@@ -97,6 +97,11 @@ def interpreter_settings():
     put("warnings.filters", lambda: [(f[0], getattr(f[2], "__name__", f[2]), f[4]) for f in warnings.filters])
     put("logging.disable", lambda: _logging.root.manager.disable)
     put("logging.root.level", lambda: _logging.root.level)
+    for n_, l_ in list(_logging.root.manager.loggerDict.items()):
+        if hasattr(l_, "level"):
+            out["setting:logger " + n_] = repr((l_.level, len(l_.handlers or []), l_.disabled, l_.propagate))
+    put("logging.root.handlers", lambda: len(_logging.root.handlers))
+    put("decimal.traps", lambda: sorted(str(k) for k, v in decimal.getcontext().traps.items() if v))
     put("cwd", os.getcwd)
     put("os.environ", lambda: hashlib.sha256(repr(sorted(os.environ.items())).encode()).hexdigest()[:16])
     put("sys.path", lambda: hashlib.sha256(repr(sys.path).encode()).hexdigest()[:16])
@@ -148,6 +153,8 @@ def state_diff(before, after):
     for k in after:
         if k not in before and k.startswith("setting:sharepoint2text") and after[k] != "None":
             mism.append((k, f"(absent) -> {str(after[k])[:80]}"))
+        if k not in before and k.startswith("setting:logger ") and after[k] != repr((0, 0, False, True)):
+            mism.append((k, f"(created) -> {after[k]}"))        # a logger that did not exist yet is fine as long as it has the default settings
     return mism
 
 
@@ -247,10 +254,32 @@ def bytes_pool():
     return pool
 
 
+def module_strings(mod, cap=40):
+    """Short string constants of the module's own source (path prefixes, suffixes, marker names): candidate ingredients of inputs."""
+    import ast as _ast
+    import inspect as _inspect
+    try:
+        tree = _ast.parse(_inspect.getsource(mod))
+    except Exception:  # noqa
+        return []
+    out = []
+    for n in _ast.walk(tree):
+        if isinstance(n, _ast.Constant) and isinstance(n.value, str) and 1 <= len(n.value) <= 16 and "\n" not in n.value and " " not in n.value.strip() \
+                and not n.value.isidentifier():
+            if n.value not in out:
+                out.append(n.value)
+    return out[:cap]
+
+
+TABLE_LINES = ["Period 12/31/2023 12/31/2024", "Total cashflow 100 200", "Net income 5 6"]
+
 POOLS = {
+    "list[str]": lambda: [TABLE_LINES, TABLE_LINES + ["cash 1 2", "flow 3 4"], ["Total cashflow 100 200", "cash flow statement"], [], ["alpha beta"],
+                          ["Other expenses 1,000 2,000", "Netincome 3 4", "net 1 1"], ["A 1 2"]],
     "bytes": bytes_pool,
     "list[int]": lambda: [[1, 2], [2, 1], [1], [0, 1, 2, 3], []],
-    "str": lambda: ["a.png", "b.png", "a.jpg", "Pictures/image1.png", "a.PNG", "x.unknown", "", "dir/a.png", "a.png ", "doc.pdf", "a.svg", "ä.png"],
+    "str": lambda: ["a.png", "doc.pdf", "notes.txt", "report.docx", "a.jpg", "data.csv", "b.png", "Pictures/image1.png", "a.PNG", "x.unknown", "", "dir/a.png",
+                    "a.png ", "a.svg", "ä.png", "page.html", "book.epub", "figure1.pct"],
     "int": lambda: [0, 1, 2, 255],
     "bool": lambda: [False, True],
 }
@@ -301,6 +330,90 @@ def make_zip(members):
     return buf.getvalue()
 
 
+def make_pdf(lines):
+    """One-page PDF, Helvetica, one text line per `lines` entry (uncompressed content stream, valid xref)."""
+    esc = lambda t: t.replace("\\", "\\\\").replace("(", "\\(").replace(")", "\\)")
+    content = ("BT /F1 11 Tf 72 740 Td 14 TL\n" + "\n".join(f"({esc(l)}) Tj T*" for l in lines) + "\nET").encode("latin-1", "replace")
+    objs = [b"<< /Type /Catalog /Pages 2 0 R >>", b"<< /Type /Pages /Kids [3 0 R] /Count 1 >>",
+            b"<< /Type /Page /Parent 2 0 R /MediaBox [0 0 612 792] /Contents 5 0 R /Resources << /Font << /F1 4 0 R >> >> >>",
+            b"<< /Type /Font /Subtype /Type1 /BaseFont /Helvetica /Encoding /WinAnsiEncoding >>",
+            b"<< /Length %d >>\nstream\n" % len(content) + content + b"\nendstream"]
+    out, offs = bytearray(b"%PDF-1.4\n"), []
+    for i, o in enumerate(objs, 1):
+        offs.append(len(out))
+        out += b"%d 0 obj\n" % i + o + b"\nendobj\n"
+    xref = len(out)
+    out += b"xref\n0 %d\n" % (len(objs) + 1) + b"0000000000 65535 f \n" + b"".join(b"%010d 00000 n \n" % o for o in offs)
+    out += b"trailer\n<< /Size %d /Root 1 0 R >>\nstartxref\n%d\n%%%%EOF\n" % (len(objs) + 1, xref)
+    return bytes(out)
+
+
+def make_tar(members):
+    import tarfile
+    buf = io.BytesIO()
+    with tarfile.open(fileobj=buf, mode="w") as tf:
+        for n, d in members:
+            d = d if isinstance(d, bytes) else d.encode()
+            ti = tarfile.TarInfo(n)
+            ti.size = len(d)
+            tf.addfile(ti, io.BytesIO(d))
+    return buf.getvalue()
+
+
+ODT_MANIFEST = ('<?xml version="1.0" encoding="UTF-8"?><manifest:manifest xmlns:manifest="urn:oasis:names:tc:opendocument:xmlns:manifest:1.0" manifest:version="1.2">'
+                '<manifest:file-entry manifest:full-path="/" manifest:media-type="application/vnd.oasis.opendocument.text"/>'
+                '<manifest:file-entry manifest:full-path="content.xml" manifest:media-type="text/xml"/>{pics}</manifest:manifest>')
+ODT_CONTENT = ('<?xml version="1.0" encoding="UTF-8"?><office:document-content xmlns:office="urn:oasis:names:tc:opendocument:xmlns:office:1.0" '
+               'xmlns:text="urn:oasis:names:tc:opendocument:xmlns:text:1.0" xmlns:draw="urn:oasis:names:tc:opendocument:xmlns:drawing:1.0" '
+               'xmlns:xlink="http://www.w3.org/1999/xlink" xmlns:svg="urn:oasis:names:tc:opendocument:xmlns:svg-compatible:1.0" office:version="1.2">'
+               '<office:body><office:text><text:p>Report with figures.</text:p>{frames}<text:p>End.</text:p></office:text></office:body></office:document-content>')
+
+
+def make_odt(pictures):
+    """Minimal ODT embedding `pictures` = [(member name, bytes)] as draw:image frames."""
+    frames = "".join(f'<text:p><draw:frame draw:name="f{i}" svg:width="2cm" svg:height="2cm"><draw:image xlink:href="{n}" xlink:type="simple"/></draw:frame></text:p>'
+                     for i, (n, _d) in enumerate(pictures))
+    pics = "".join(f'<manifest:file-entry manifest:full-path="{n}" manifest:media-type=""/>' for (n, _d) in pictures)
+    buf = io.BytesIO()
+    with zipfile.ZipFile(buf, "w") as zf:
+        zf.writestr("mimetype", "application/vnd.oasis.opendocument.text", zipfile.ZIP_STORED)
+        zf.writestr("META-INF/manifest.xml", ODT_MANIFEST.format(pics=pics))
+        zf.writestr("content.xml", ODT_CONTENT.format(frames=frames))
+        for n, d in pictures:
+            zf.writestr(n, d)
+    return buf.getvalue()
+
+
+def make_epub_with_items(title, chapters, items):
+    """EPUB whose manifest also lists `items` = [(href, declared media-type, bytes)] (images, fonts, ... declared or not)."""
+    buf = io.BytesIO()
+    with zipfile.ZipFile(buf, "w") as zf:
+        zf.writestr("mimetype", "application/epub+zip", zipfile.ZIP_STORED)
+        zf.writestr("META-INF/container.xml", CONTAINER)
+        its = "".join(f'<item id="c{i}" href="c{i}.xhtml" media-type="application/xhtml+xml"/>' for i in range(len(chapters)))
+        its += "".join(f'<item id="r{i}" href="{h}" media-type="{mt}"/>' for i, (h, mt, _d) in enumerate(items))
+        refs = "".join(f'<itemref idref="c{i}"/>' for i in range(len(chapters)))
+        zf.writestr("OEBPS/content.opf", OPF.format(title=title, items=its, refs=refs))
+        for i, ch in enumerate(chapters):
+            zf.writestr(f"OEBPS/c{i}.xhtml", ch)
+        for (h, _mt, d) in items:
+            zf.writestr("OEBPS/" + h, d)
+    return buf.getvalue()
+
+
+PNG_1x1 = bytes.fromhex("89504e470d0a1a0a0000000d4948445200000001000000010806000000"
+                        "1f15c4890000000d49444154789c6360000002000001e221bc330000000049454e44ae426082")
+# image formats a manifest may declare although the platform's MIME table does not know their extension
+RARE_IMAGE_TYPES = [("figure1.pct", "image/x-pict"), ("photo.wdp", "image/vnd.ms-photo"), ("scan.tga", "image/x-tga"), ("draw.svm", "image/x-svm"),
+                    ("pic.jxr", "image/jxr"), ("plain.png", "image/png"), ("undeclared.png", "")]
+TABLE_PAGES = {
+    "table with cash / flow words": ["Statement of cash and flow positions", "Period 12/31/2023 12/31/2024", "Total cashflow 100 200", "Net income 5 6", "cash 1 2", "flow 3 4"],
+    "table without them": ["Annual statement", "Period 12/31/2023 12/31/2024", "Total cashflow 100 200", "Net income 5 6", "Other items 7 8"],
+    "table with net / income words": ["Summary of net results and income", "Period 12/31/2023 12/31/2024", "Group netincome 10 20", "Total cashflow 1 2", "net 1 1", "income 2 2"],
+    "prose only": ["This page has no table at all.", "Only two sentences of prose."],
+}
+
+
 def generated_corpus(tmp):
     """[(label, path)]: small documents of several formats, well-formed ones and ones that fail or stop early."""
     docs = []
@@ -329,6 +442,20 @@ def generated_corpus(tmp):
     add("corrupt docx", "bad.docx", make_zip([("word/document.xml", "<w:document")]))
     add("corrupt epub", "bad.epub", make_zip([("mimetype", "application/epub+zip")]))
     add("corrupt 7z", "bad.7z", b"7z\xbc\xaf\x27\x1c\x00\x04" + b"\x01" * 40)
+    # PDFs with tables that share row labels but not vocabulary
+    for k, (lab, lines) in enumerate(TABLE_PAGES.items()):
+        add(f"pdf {lab}", f"table{k}.pdf", make_pdf(lines))
+    # archives: the same base names in different directories / under system prefixes, in both container formats
+    members_mac = [("__MACOSX/summary.txt", "resource fork junk"), ("__MACOSX/._notes.txt", "junk"), ("notes.txt", "real notes")]
+    members_plain = [("reports/summary.txt", "the real summary"), ("reports/notes.txt", "other notes"), (".hidden/summary.txt", "x")]
+    add("zip exported on a Mac", "mac.zip", make_zip(members_mac))
+    add("zip with reports/", "reports.zip", make_zip(members_plain))
+    add("tar exported on a Mac", "mac.tar", make_tar(members_mac))
+    add("tar with reports/", "reports.tar", make_tar(members_plain))
+    add("zip with nested zip", "nested.zip", make_zip([("inner/a.zip", make_zip([("summary.txt", "inner")])), ("summary.txt", "outer")]))
+    # manifests that declare rare image types / no type; documents that can only guess the type from the name
+    add("epub with rare image types", "images.epub", make_epub_with_items("Book I", [GOOD], [(h, mt, PNG_1x1) for (h, mt) in RARE_IMAGE_TYPES]))
+    add("odt embedding rare image types", "figures.odt", make_odt([("Pictures/" + h, PNG_1x1) for (h, _mt) in RARE_IMAGE_TYPES[:5]]))
     add("rtf", "r.rtf", r"{\rtf1\ansi{\fonttbl{\f0 Arial;}}\f0 Hello \b world\b0 .\par}")
     add("eml", "m.eml", "From: a@e.org\nTo: b@e.org\nSubject: s\nDate: Mon, 1 Jan 2024 00:00:00 +0000\n\nbody\n")
     return docs
@@ -356,21 +483,45 @@ def _kind(ann):
         return "bytes"
     if s in ("list[int]", "Sequence[int]", "tuple[int,...]"):
         return "list[int]"
+    if s in ("list[str]", "Sequence[str]", "Iterable[str]"):
+        return "list[str]"
     return s if s in POOLS else None
 
 
 def memo_search(rel, qual, budget=700):
     import inspect
-    if not rel or not qual or "." in qual:
+    import itertools
+    if not rel or not qual or qual.count(".") > 1 or "<locals>" in qual:
         return None
     try:
         mod = importlib.import_module(rel[:-3].replace("/", "."))
-        f = getattr(mod, qual)
-        sig = inspect.signature(f)
+        if "." in qual:
+            # a method: the function under test is  (init args..., call args...) -> Class(*init args).method(*call args)
+            cname, mname = qual.split(".")
+            cls = getattr(mod, cname)
+            raw = inspect.getattr_static(cls, mname)
+            init_ps = [p for p in list(inspect.signature(cls.__init__).parameters.values())[1:]] if "__init__" in vars(cls) or cls.__init__ is not object.__init__ else []
+            if isinstance(raw, staticmethod):
+                call_ps, n_init = list(inspect.signature(raw.__func__).parameters.values()), 0
+                init_ps = []
+                f = getattr(cls, mname)
+            elif isinstance(raw, classmethod):
+                call_ps, n_init = list(inspect.signature(raw.__func__).parameters.values())[1:], 0
+                init_ps = []
+                f = getattr(cls, mname)
+            else:
+                call_ps, n_init = list(inspect.signature(raw).parameters.values())[1:], len(init_ps)
+
+                def f(*a, _cls=cls, _m=mname, _n=n_init):
+                    return getattr(_cls(*a[:_n]), _m)(*a[_n:])
+            params = init_ps + call_ps
+        else:
+            f = getattr(mod, qual)
+            params = list(inspect.signature(f).parameters.values())
     except Exception:  # noqa
         return None
     kinds = []
-    for p in sig.parameters.values():
+    for p in params:
         if p.kind in (p.VAR_POSITIONAL, p.VAR_KEYWORD):
             return None
         k = _kind(p.annotation)
@@ -381,26 +532,69 @@ def memo_search(rel, qual, budget=700):
         kinds.append(k)
     if not kinds:
         return None
-    pools = [POOLS[k]() for k in kinds]
-    # argument tuples: the first pool in full, the others at their first values; then the others varied at the first two firsts
-    cands = []
-    firsts = [p[0] for p in pools]
-    for i, pool in enumerate(pools):
-        for v in pool:
-            t = list(firsts)
-            t[i] = v
-            if t not in cands:
-                cands.append(t)
-    for i, pool in enumerate(pools[1:], 1):
-        for v in pool[:3]:
-            t = [p[1] if len(p) > 1 else p[0] for p in pools]
-            t[i] = v
-            if t not in cands:
-                cands.append(t)
+    pools = [list(POOLS[k]()) for k in kinds]
+    # strings the module itself mentions (prefixes, suffixes, marker names) combined with a plain name, and the text of the line pools
+    consts = module_strings(mod)
+    for k, pool in zip(kinds, pools):
+        if k == "str":
+            first = pool[0]
+            for c in consts:
+                for v in (c + first, first + c, c):
+                    if v not in pool:
+                        pool.append(v)
+            if "list[str]" in kinds:
+                # text-processing code: the interesting strings are the ones the line pools are made of (labels, words) -- those first
+                import re as _re
+                derived = []
+                for lines in POOLS["list[str]"]():
+                    for ln in lines:
+                        m_ = _re.match(r"[A-Za-z ]+", ln)
+                        for v in ([m_.group(0).strip()] if m_ else []) + ln.split():
+                            if v and v not in derived:
+                                derived.append(v)
+                pool[:] = (derived + [v for v in pool if v not in derived])[:70]
+    size = 1
+    for pool in pools:
+        size *= len(pool)
+    if size <= budget:
+        cands = [list(t) for t in itertools.product(*pools)]
+    else:
+        # argument tuples: each pool in full with the others at their first values; then the others varied at the second values
+        cands = []
+        firsts = [p[0] for p in pools]
+        for i, pool in enumerate(pools):
+            for v in pool:
+                t = list(firsts)
+                t[i] = v
+                if t not in cands:
+                    cands.append(t)
+        for i, pool in enumerate(pools[1:], 1):
+            for v in pool[:3]:
+                t = [p[1] if len(p) > 1 else p[0] for p in pools]
+                t[i] = v
+                if t not in cands:
+                    cands.append(t)
+    # several string parameters often describe ONE thing (a path and its base name, a name and its normal form): the diagonal,
+    # plain and decorated with the module's own prefixes / suffixes
+    str_idx = [i for i, k in enumerate(kinds) if k == "str"]
+    if len(str_idx) >= 2 and size > budget:
+        diag = []
+        base_vals = list(POOLS["str"]())
+        for deco, v in [(d_, v_) for d_ in [""] + consts for v_ in base_vals[:6]] + [(d_, v_) for d_ in [""] + consts for v_ in base_vals[6:]]:
+            if True:
+                for j in str_idx:
+                    for w in (deco + v, v + deco):
+                        t = [p[0] for p in pools]
+                        for i in str_idx:
+                            t[i] = v
+                        t[j] = w
+                        if t not in diag:
+                            diag.append(t)
+        cands = diag[: budget // 2] + [c for c in cands if c not in diag]
     cands = cands[:budget]
     show = lambda t: [("hex:" + bytes(x).hex()) if isinstance(x, (bytes, bytearray)) else x for x in t]
     base = [forked(lambda y=y: outcome(f, *y)).get("ok") for y in cands]
-    step = 1 if len(cands) <= 320 else len(cands) // 160
+    step = 1 if len(cands) <= 800 else len(cands) // 400
     firsts_x = cands[:2] + cands[2::step]                  # every candidate is also tried as the earlier call (sampled above 320)
     for x in firsts_x:
         def run(x=x):
@@ -725,6 +919,20 @@ def workloads(rel):
                       f"deserialize_extraction(stored {lb})", lambda: describe(ser.deserialize_extraction(json.loads(tb))), None))
             w.append((f"deserialize_extraction(stored {lb})", lambda: describe(ser.deserialize_extraction(json.loads(tb))),
                       f"deserialize_extraction(stored {la})", lambda: describe(ser.deserialize_extraction(json.loads(ta))), None))
+            # serialising one result with different options in two threads (the object is rebuilt from its stored form first)
+            H = {}
+
+            def load_obj():
+                if "obj" not in H:
+                    H["obj"] = ser.deserialize_extraction(json.loads(ta))
+
+            def dump(flag):
+                d = ser.serialize_extraction(H["obj"], include_binary=flag)
+                return hashlib.sha256(json.dumps(d, sort_keys=True, default=str).encode()).hexdigest()
+            w.append((f"serialize_extraction(result of {la}, include_binary=False)", lambda: dump(False),
+                      f"serialize_extraction(result of {la}, include_binary=True)", lambda: dump(True), load_obj))
+            w.append((f"serialize_extraction(result of {la}, include_binary=True)", lambda: dump(True),
+                      f"serialize_extraction(result of {la}, include_binary=False)", lambda: dump(False), load_obj))
     elif base == "pdf_extractor.py":
         from sharepoint2text.parsing.extractors.pdf import pdf_extractor as pe
         fa, fb = build_ttf([(0, 0), (540, 1472), (949, 1447)]), build_ttf([(0, 0), (949, 1447), (540, 1472)])
@@ -748,14 +956,14 @@ def schedule_search(rel, funcs, cap=260):
     funcs = set(funcs or ())
     for (la, ta, lb, tb, warm) in workloads(rel):
         import time as _time
-        base_a = forked(lambda: outcome(ta)).get("ok")
-        t0 = _time.time()
-        base_b = forked(lambda: outcome(tb)).get("ok")
-        bw = max(1.0, 25 * (_time.time() - t0))            # B needs about this long alone; much longer = blocked on a lock A holds
 
         def prep():
             if warm:
                 warm()
+        base_a = forked(lambda: (prep(), outcome(ta))[1]).get("ok")
+        t0 = _time.time()
+        base_b = forked(lambda: (prep(), outcome(tb))[1]).get("ok")
+        bw = max(1.0, 25 * (_time.time() - t0))            # B needs about this long alone; much longer = blocked on a lock A holds
         total = forked(lambda: (prep(), run_schedule(ta, lambda: None, files, funcs, -1))[1][2]).get("ok") or 0
         if not total:
             continue
@@ -921,6 +1129,42 @@ def run_schedule2(task_a, task_b, files, funcs, n, m, block_wait=BLOCK_WAIT):
     ta.join(40)
     tb.join(40)
     return out.get("A"), out.get("B"), cnt["A"], cnt["B"], where.get("A"), where.get("B")
+
+
+def schedule2_search(rel, funcs, points=9):
+    """Two threads, TWO context switches: A runs to its n-th line event inside (file, funcs) and parks, B runs to its m-th and
+    parks, A finishes, B finishes -- for sampled (n, m).  Outcomes against the isolated baselines."""
+    files = {os.path.join(REPO, rel)} if rel else set()
+    funcs = set(funcs or ())
+    for (la, ta, lb, tb, warm) in workloads(rel):
+        def prep():
+            if warm:
+                warm()
+        base_a = forked(lambda: (prep(), outcome(ta))[1]).get("ok")
+        base_b = forked(lambda: (prep(), outcome(tb))[1]).get("ok")
+        tot = forked(lambda: (prep(), run_schedule2(ta, tb, files, funcs, -1, -1))[1]).get("ok")
+        if not tot or not tot[2] or not tot[3]:
+            continue
+        total_a, total_b = tot[2], tot[3]
+
+        def sample(total):
+            pts = {1, 2, 3, 5, 8, total, total - 1, total - 3} | {max(1, (k * total) // points) for k in range(1, points)}
+            return sorted(p for p in pts if 1 <= p <= total)
+        pairs = [(n, m) for n in sample(total_a) for m in sample(total_b)]
+        pairs.sort(key=lambda p: abs(p[0] - total_a / 2) + abs(p[1] - total_b / 2))
+        for (n, m) in pairs:
+            r = forked(lambda n=n, m=m: (prep(), run_schedule2(ta, tb, files, funcs, n, m, 1.0))[1], timeout=90).get("ok")
+            if not r:
+                continue
+            oa, ob, _ca, _cb, wa, wb = r
+            if oa != base_a or ob != base_b:
+                who, exp, got = ("A", base_a, oa) if oa != base_a else ("B", base_b, ob)
+                return {"reproduced": True, "target": rel,
+                        "inputs": {"schedule": f"thread A: {la}, parked at its line event #{n} ({wa}); thread B: {lb}, parked at its line event #{m} ({wb}); A runs to the end; B runs to the end",
+                                   "preemption_point": wa, "line_events": [n, m]},
+                        "expected": f"thread {who}: the outcome of the same call alone: {json.dumps(exp)[:160]}", "observed": json.dumps(got)[:200],
+                        "search": f"two threads, two context switches, {len(pairs)} sampled pairs of line events of the functions touching the name"}
+    return None
 
 
 def patcher_schedule_search(rel, qual, cap=24, helpers=None):
@@ -1126,6 +1370,8 @@ def _find(req):
                 r = serial_search()
             elif step == "schedule":
                 r = schedule_search(rel, funcs)
+                if not r and (hint.get("two_switch") or "is-set-around" in oid):
+                    r = schedule2_search(rel, funcs)
             elif step == "fixtures":
                 mism, nfiles, nsample = fixtures_check()
                 if mism:
